@@ -1,4 +1,5 @@
 import SqlgrepModel.Model.Exec
+import SqlgrepModel.Spec.Join
 /-
 Executable SPECIFICATION of aggregate queries (property C04), written from the property sentence:
 
@@ -13,10 +14,10 @@ the outcome:
     a non-numeric SUM/AVG/STDDEV argument, a non-BOOLEAN BOOL_AND argument, a non-TEXT STRING_AGG argument;
   * arguments of more than one type in one group (cannot arise for a typed column; for MIN/MAX/PERCENTILE the
     "value order of the argument's type" is then undefined — the derived cross-type order is finding D45);
-  * group keys that are REAL or arrays (keys that are equal in the value order but print differently,
-    `0.0`/`-0.0`: which of them is shown is not fixed);
+  * group keys that are arrays, or REAL keys that are equal to a differently printed one (`-0.0`, non-canonical NaN):
+    which of two equal keys a group's row shows depends on the engine's history (finding D60), so it is not fixed;
   * a REAL sum whose first addend `y` has `0.0 + y ≠ y` (only `-0.0`: the sign of a zero sum is not fixed);
-  * PERCENTILE with p outside [0, 1]; joins (C05) and unreadable lines (C12).
+  * PERCENTILE with p outside [0, 1]; unreadable lines (C12); joins that cannot be set up (C05).
 Where the sentence is silent but an answer is needed the code is mirrored, and said so at the definition:
 AVG of INTs truncates, the first of several equal extremes is shown by MIN/MAX, STRING_AGG starts at the first
 non-empty text, the element type of ARRAY_AGG is the type of its first element.
@@ -81,9 +82,10 @@ def rowsOfKey (k : List Value) (rows : List (List Value × Env)) : List Env :=
 def groups (rows : List (List Value × Env)) : List (List Value × List Env) :=
   (distinctKeys (rows.map (·.1))).map (fun k => (k, rowsOfKey k rows))
 
-/-- key values for which "equal in the value order" is "identical" (no REAL, no array) -/
+/-- key values for which "equal in the value order" is "identical": every value but arrays and the REAL patterns
+that are equal to another pattern (`-0.0` = `0.0`; NaNs other than the canonical one; patterns beyond 64 bits) -/
 def simpleValue : Value → Bool
-  | .real _ => false
+  | .real b => decide (b < 2^64) && b != 2^63 && (!F64.isNaN b || b == F64.canonNaN)
   | .array _ _ => false
   | _ => true
 
@@ -348,18 +350,33 @@ def envsOf (t : TableInfo) (lines : List FileLine) : List Env :=
   (lines.filter (fun fl => anyResult fl.line.row)).map
     (fun fl => envOfInsertions (columnsMapping t fl.line.row fl.line.text))
 
+/-- the rows an aggregate statement over a JOIN sees: the nested loop of `Spec.Join` (C05) — for every admitted input
+row, in input order, one row per admitted row of the joined file with an equal non-NULL key, in file order; an
+aggregate never sees the NULL-padded row of an OUTER JOIN -/
+def joinEnvs (qy : Query) (j : JoinInfo) (joined lines : List FileLine) : List Env :=
+  (Spec.Join.specJoin qy j (joined.map (·.line)) false (lines.map (·.line))).map (·.1)
+
+/-- the answer for given rows: the table printed once, the line count, and the deviation class -/
+def batchOver (O : Oracles) (q : AggStmt) (envs : List Env) (total : Nat) : Option (RunOut × String) :=
+  match table O q envs with
+  | none => none
+  | some rows =>
+    some ({ printed := printResult { columns := q.items.map (·.name), rows := rows } true, totalLines := total },
+      deviationClass O q envs)
+
 /-- spec answer for a batch run of an aggregate statement, with the name of a known deviation class of the
-implementation if the case falls into one (`""` otherwise) -/
-def batch (O : Oracles) (qy : Query) (q : AggStmt) (_joined : List FileLine) (files : List (List FileLine)) :
+implementation if the case falls into one (`""` otherwise). With a JOIN the statement is evaluated over the nested loop's
+rows (`joinEnvs`); a join that cannot be set up (missing join column, unreadable joined file) is C05's to decide. -/
+def batch (O : Oracles) (qy : Query) (q : AggStmt) (joined : List FileLine) (files : List (List FileLine)) :
     Option (RunOut × String) :=
   let lines := files.flatten
-  if qy.join.isSome || lines.any (fun fl => !fl.readable) then none
+  if lines.any (fun fl => !fl.readable) then none
   else
-    let envs := envsOf qy.table lines
-    match table O q envs with
-    | none => none
-    | some rows =>
-      some ({ printed := printResult { columns := q.items.map (·.name), rows := rows } true, totalLines := lines.length },
-        deviationClass O q envs)
+    match qy.join with
+    | none => batchOver O q (envsOf qy.table lines) lines.length
+    | some j =>
+      if joined.any (fun fl => !fl.readable) || (indexOf? qy.table.columns j.joinerColumn).isNone ||
+          (indexOf? j.joined.columns j.joinedColumn).isNone then none
+      else batchOver O q (joinEnvs qy j joined lines) lines.length
 
 end Sqlgrep.Spec.Agg
